@@ -211,17 +211,19 @@ func (g *Gateway) handleLegacyProtocol(w http.ResponseWriter, r *http.Request, t
 		log.Printf("Opening RDGOUT for client %s", id.GetAttribute(identity.AttrClientIp))
 
 		// a repeated RDG_OUT_DATA request for a connection id replaces the channel the
-		// tunnel answers on: the one it replaces is closed, nothing else refers to it
+		// tunnel answers on: the one it replaces is closed, nothing else refers to it.
+		// The response to this request goes out before any packet of the tunnel does:
+		// the tunnel's writers are kept out until it has been sent
 		t.writeMu.Lock()
 		prev := t.transportOut
 		t.transportOut = out
+		verifHook("legacy.out.attached", t)
+		out.SendAccept(true)
+		verifHook("legacy.out.accepted", t)
 		t.writeMu.Unlock()
 		if prev != nil {
 			prev.Close()
 		}
-		verifHook("legacy.out.attached", t)
-		out.SendAccept(true)
-		verifHook("legacy.out.accepted", t)
 
 		c.Set(t.RDGId, t, cache.DefaultExpiration)
 		verifHook("legacy.out.published", t)
